@@ -138,6 +138,23 @@ def seq_family():
     return out
 
 
+def slice_family():
+    """every constant slice: start, stop in {omitted, 0, 1, -1, 2}, step in {omitted, 1, 2, -1, -2, 0} (a zero step must fail the way
+    Python's does), on the list and on the byte string, alone, measured and compared"""
+    out = []
+    for sname in ('s', 'd'):
+        for a in (None, 0, 1, -1, 2):
+            for b in (None, 0, 1, -1, 2):
+                for st in (None, 1, 2, -1, -2, 0):
+                    sl = ['sl', a, b] if st is None else ['sl', a, b, st]
+                    g = ['bin', 'getitem', ['f', sname], sl]
+                    out.append(g)
+                    if st is not None:
+                        out.append(['un', 'len', g])
+                        out.append(['bin', 'eq', g, ['c', [3, 2, 1] if sname == 's' else b'ba']])
+    return out
+
+
 def nary_family():
     out = []
     opts_pool = [['c', 7], ['f', 'b'], ['bin', 'sub', ['c', 8], ['f', 'b']], ['bin', 'mul', ['f', 'a'], ['f', 'b']], ['c', b'xy']]
@@ -188,7 +205,7 @@ def build(t, fields):
     if k == 'ct':
         return tuple(t[1])
     if k == 'sl':
-        return slice(t[1], t[2])
+        return slice(*t[1:])
     if k == 'bin':
         l, r = build(t[2], fields), build(t[3], fields)
         return getattr(operator, t[1])(l, r)
@@ -228,7 +245,7 @@ def eager(t, vals):
     if k == 'ct':
         return tuple(t[1])
     if k == 'sl':
-        return slice(t[1], t[2])
+        return slice(*t[1:])
     if k == 'bin':
         l, r = eager(t[2], vals), eager(t[3], vals)
         return getattr(operator, t[1])(l, r)
@@ -263,7 +280,7 @@ def render(t):
     if k == 'ct':
         return repr(tuple(t[1]))
     if k == 'sl':
-        return '%s:%s' % ('' if t[1] is None else t[1], '' if t[2] is None else t[2])
+        return ':'.join('' if x is None else str(x) for x in t[1:])
     sym = {'add': '+', 'sub': '-', 'mul': '*', 'truediv': '/', 'floordiv': '//', 'mod': '%', 'pow': '**', 'le': '<=', 'lt': '<',
            'ge': '>=', 'gt': '>', 'eq': '==', 'ne': '!=', 'and_': '&', 'or_': '|', 'xor': '^', 'rshift': '>>', 'lshift': '<<'}
     if k == 'bin':
@@ -603,7 +620,7 @@ def sibling_public_pairs():
 
 
 def families(tier):
-    fams = [('int-d1', depth1_int()), ('seq', seq_family()), ('nary', nary_family()), ('const-kinds', const_kind_family())]
+    fams = [('int-d1', depth1_int()), ('seq', seq_family()), ('nary', nary_family()), ('const-kinds', const_kind_family()), ('slices', slice_family())]
     return fams
 
 
@@ -697,7 +714,7 @@ def run(tier):
         'public_classes': st.n.get('public_classes', 0),
         'rule': 'all expression trees of depth <=1 and %s over 18 binary operators in every operand order (field/const/sub-expression), '
                 'neg/invert/truth, plus the sequence family (index, constant slices, len, ==/!=) and the n-ary family (chooses in list/positional/'
-                'dict/keyword form, if_true_then_else), plus constants of every kind (tuples of length 0..3, None, float, text, empty/non-empty strings and lists) as operand in either position, as option and indexed afterwards, plus groups of sibling expressions over the same fields that differ only in equal-comparing constants of different type (2/2.0, 1/True/1.0, 0/False/0.0) compiled side by side; operands a,b in -2..3 (depth-1 trees also 7, 8, 31..33, 63..65, 100, 127, -128), s in [],[0],[1,2,3], d in b"",b"ab"; '
+                'dict/keyword form, if_true_then_else), plus every constant slice with start/stop in {omitted, 0, 1, -1, 2} and step in {omitted, 1, 2, -1, -2, 0}, plus constants of every kind (tuples of length 0..3, None, float, text, empty/non-empty strings and lists) as operand in either position, as option and indexed afterwards, plus groups of sibling expressions over the same fields that differ only in equal-comparing constants of different type (2/2.0, 1/True/1.0, 0/False/0.0) compiled side by side; operands a,b in -2..3 (depth-1 trees also 7, 8, 31..33, 63..65, 100, 127, -128), s in [],[0],[1,2,3], d in b"",b"ab"; '
                 'states = distinct (ok/exception, result type or exception class); the depth-1 trees and the families once more in child interpreters started with -O' % (
                     'all depth-2 trees' if tier == 'thorough' else 'depth-2 trees nested on one side'),
         'exhaustive': True,
